@@ -61,6 +61,10 @@ def run(res, tier):
         for line in open(tr):
             t = json.loads(line)
             traces[t["id"]] = t
+            if "udp" in t:
+                for x in t["udp"]["recv"]:
+                    if x.get("pieces", 1) > 1 and x["intact"]:
+                        log(f"OBSERVATION udp relay: a client datagram of {x['n']} bytes reached the upstream as {x['pieces']} datagrams (the relay reads through an 8192-byte buffer); C03 speaks of bytes, so this is reported, not judged")
         for b in bad:
             t = traces[b["id"]]
             ks = "+".join(sorted(c.split()[0] for c in b["clauses"]))
@@ -69,7 +73,7 @@ def run(res, tier):
                 continue
             res.violation("proxy:" + t["scen"]["order"] + f":peers{t['scen']['peers']}:" + ks,
                           "; ".join(b["clauses"]) + f" (trace {b['id']}, scenario {t['scen']})", t)
-    res.assumptions += ["loopback TCP on both sides (kernel TCP trusted); TLS and Unix-socket transports are not exercised",
+    res.assumptions += ["loopback TCP, Unix stream sockets and TLS (kernel and crypto/tls trusted)",
                         "upstream bytes carry the peer index in their high bit so that the client can attribute interleaved bytes"]
 
 
